@@ -94,7 +94,7 @@ static void run_case (int format, int ch, int n, int idscheme, int lenscheme, in
 	for (i = 0 ; i < n ; i++)
 	{	int first = 1, j ; for (j = 0 ; j < i ; j++) if (!strcmp (cs [j].id, cs [i].id)) first = 0 ;
 		if (!first) continue ;
-		{	SF_CHUNK_INFO q ; SF_CHUNK_ITERATOR *it ; int steps = 0, want = i, found = 0, mine = 0 ;
+		{	SF_CHUNK_INFO q ; SF_CHUNK_ITERATOR *it ; int steps = 0, want = i, found = 0, mine = 0, wrongid = 0 ;
 			for (j = 0 ; j < n ; j++) if (!strcmp (cs [j].id, cs [i].id)) mine++ ;
 			memset (&q, 0, sizeof (q)) ; snprintf (q.id, sizeof (q.id), "%s", cs [i].id) ; q.id_size = cs [i].idlen ;
 			it = sf_get_chunk_iterator (s, &q) ;
@@ -102,7 +102,9 @@ static void run_case (int format, int ch, int n, int idscheme, int lenscheme, in
 			{	SF_CHUNK_INFO ci ; memset (&ci, 0, sizeof (ci)) ; steps++ ;
 				if (sf_get_chunk_size (it, &ci) == 0 && ci.datalen < 70000000)
 				{	unsigned char *buf = vh_guard_alloc (ci.datalen, 0xEE) ; ci.data = buf ;
-					if (sf_get_chunk_data (it, &ci) == 0 && want < n && ci.datalen >= cs [want].len && ci.datalen <= cs [want].len + 3 && !memcmp (buf, cs [want].data, cs [want].len))
+					int grc = sf_get_chunk_data (it, &ci) ;
+					if (grc == 0 && strncmp (ci.id, cs [i].id, 4)) wrongid++ ;		/* the library reports the id of the chunk the iterator stands on */
+					if (grc == 0 && want < n && ci.datalen >= cs [want].len && ci.datalen <= cs [want].len + 3 && !memcmp (buf, cs [want].data, cs [want].len))
 					{	found++ ; cs [want].seen_id++ ; for (want++ ; want < n && strcmp (cs [want].id, cs [i].id) ; want++) ; }
 					free (buf) ;
 					/* short caller buffers: at most datalen bytes may be written */
@@ -117,6 +119,7 @@ static void run_case (int format, int ch, int n, int idscheme, int lenscheme, in
 				}
 			if (steps > n + 80) vh_viol (vh_key ("C13|iterator-does-not-terminate|%s|by-id", fn), "iteration by id '%s' still going after %d steps", cs [i].id, steps) ;
 			else if (found != mine) vh_viol (vh_key ("C13|chunk-missing-by-id|%s%s%s", fn, over, idq), "id '%s': %d chunks set, iteration by id matched %d (visited %d)", cs [i].id, mine, found, steps) ;
+			else if (wrongid) vh_viol (vh_key ("C13|by-id-visits-other-ids|%s%s%s", fn, over, idq), "id '%s': iteration by id visited %d chunks, %d of them carry a different id (%d chunks set under it, %d found)", cs [i].id, steps, wrongid, mine, found) ;
 			else vh_stat ("by_id_iterations_complete", 1) ;
 			}
 		}
